@@ -26,7 +26,9 @@ PROP_FILES = [os.path.join(V.PROPS, "C11.v")]
 # derivative computed with Dual64 / Dual2_64 / HyperDual64 / Dual3_64 is not bit-identical.  Measured on the pinned
 # tree over the sampled range (packing fraction down to 1e-6 of the maximum, where cancellation amplifies the
 # round-off): <= 2.2e-10 relative (seeds 1-40 quick, 1-7 thorough); anything a mis-keyed entry produces is O(1).
-TOL_HIST = 1e-7
+TOL_HIST = 1e-7   # (upper end; the tolerance actually applied is per state, computed by the harness:)
+# value_tol(state) = 1e-9 + 2e-12 / (rho / rho_max): measured over all model families (5250 states, seeds 1-25 thorough) the
+# deviation is <= max(1e-11, 4e-14 / (rho/rho_max)) — round-off of O(1) intermediate terms against residual values of O(rho).
 # par_pure starts every chunk without an initial guess, pure continues from the previous point, and the two build
 # their temperature grids with different formulas (a few ulp apart): converged states agree to solver tolerance.
 # Measured <= 2.3e-13.
@@ -162,18 +164,19 @@ def run(ctx):
                 rp.setdefault("first_mismatches", []).append({"history": hist, "model": mdl, "implementation": det})
                 w = fnum(det["worst_rel_dev_from_fresh_state"])
                 ext = det.get("extension")
-                if w > TOL_HIST and not found:
+                TOL = cfg["value_tol"]
+                if w > TOL and not found:
                     found = {"model": cfg["model"], "state_TVN": cfg["state_TVN"], "history": hist, "rel_dev": w}
-                elif ext and fnum(ext["rel_dev"]) > TOL_HIST and not found:
+                elif ext and fnum(ext["rel_dev"]) > TOL and not found:
                     found = {"model": cfg["model"], "state_TVN": cfg["state_TVN"], "history": ext["history"], "rel_dev": fnum(ext["rel_dev"]),
                              "detail": ext}
         # the exhaustive run already compared every response with the fresh state: its first (= shortest) deviation
         for part in ("exhaustive", "random"):
             vf = cfg[part]["vs_fresh"]
-            if fnum(vf["worst_rel"]) > TOL_HIST and not found:
+            if fnum(vf["worst_rel"]) > cfg["value_tol"] and not found:
                 first = None
                 for cand in (vf["first"], vf["worst_case"]):
-                    if cand and fnum(cand["rel_dev"]) > TOL_HIST:
+                    if cand and fnum(cand["rel_dev"]) > cfg["value_tol"]:
                         first = cand
                         break
                 if first:
@@ -182,7 +185,7 @@ def run(ctx):
                              "detail": first}
         if found:
             rp["failing"] = found
-            rp["expected"] = "the value a fresh state returns for the last request (relative tolerance %g)" % TOL_HIST
+            rp["expected"] = "the value a fresh state returns for the last request (relative tolerance %g)" % cfg["value_tol"]
             V.violation(ctx, "cache model and State disagree for %s; history-dependent value found: after [%s] a property differs "
                         "from the fresh-state value by %.3g relative" % (f["config"], found["history"], found["rel_dev"]), rp, found_input=True)
         else:
@@ -190,6 +193,7 @@ def run(ctx):
 
     # ---- support (partial clauses): measured on the implementation, every run
     worst_cons = 0.0
+    cons_over = False
     worst_hist = 0.0
     bitdiff = 0
     responses = 0
@@ -199,6 +203,7 @@ def run(ctx):
     for cfg in impl["configs"]:
         oc = cfg["oracle_consistency"]
         worst_cons = max(worst_cons, fnum(oc["worst_rel"]))
+        cons_over = cons_over or fnum(oc["worst_rel"]) > cfg["value_tol"]
         if len(cons_samples) < 2:
             cons_samples.append({"config": cfg["name"], "keys": oc["keys"], "claims": oc["claims"],
                                  "keys_not_bit_identical": oc["keys_not_bit_identical"], "worst_rel": oc["worst_rel"],
@@ -209,17 +214,17 @@ def run(ctx):
             bitdiff += vf["bit_different_from_fresh"]
             w = fnum(vf["worst_rel"])
             worst_hist = max(worst_hist, w)
-            if w > TOL_HIST and cfg["name"] not in reported_cfg:
+            if w > cfg["value_tol"] and cfg["name"] not in reported_cfg:
                 reported_cfg.add(cfg["name"])
-                case = vf["first"] if fnum(vf["first"]["rel_dev"]) > TOL_HIST else vf["worst_case"]
+                case = vf["first"] if fnum(vf["first"]["rel_dev"]) > cfg["value_tol"] else vf["worst_case"]
                 V.violation(ctx, "history-dependent value on %s: after %s the request %s returns %r, a fresh state returns %r"
                             % (cfg["name"], case["history"], case["request"], case["after_history"], case["fresh_state"]),
-                            {"broken": "support search: response after a history vs fresh state (tolerance %g relative)" % TOL_HIST,
+                            {"broken": "support search: response after a history vs fresh state (tolerance %g relative)" % cfg["value_tol"],
                              "failing": {"model": cfg["model"], "state_TVN": cfg["state_TVN"], "history": ";".join(case["history"]),
                                          "rel_dev": fnum(case["rel_dev"]), "detail": case}}, found_input=True)
         gw = fnum(cfg["random"]["getter_vs_fresh_worst_rel"])
         worst_hist = max(worst_hist, gw)
-        if gw > TOL_HIST and cfg["name"] not in reported_cfg:
+        if gw > cfg["value_tol"] and cfg["name"] not in reported_cfg:
             reported_cfg.add(cfg["name"])
             V.violation(ctx, "a public getter returns a history-dependent value on %s (rel. deviation %.3g)" % (cfg["name"], gw),
                         {"broken": "support search: getter after a history vs fresh state", "config": cfg["name"],
@@ -237,7 +242,7 @@ def run(ctx):
                             "(a key computed twice / counters / missing or foreign key) (%s)" % cfg["name"],
                             {"broken": "runtime stress: 2-16 threads on a shared State (bookkeeping only, all values agree with a fresh state)",
                              "cases": st["failures"]}, found_input=False)
-    if worst_cons > TOL_HIST and not ctx.violations:
+    if cons_over and not ctx.violations:
         V.violation(ctx, "the tuples computed for the cache are not projections of one jet: relative spread %.3g" % worst_cons,
                     {"broken": "oracle consistency (hypothesis of C11_cache_refines_jet)", "samples": cons_samples}, found_input=False)
 
@@ -248,7 +253,7 @@ def run(ctx):
                     "the dual number types do not deliver the same derivative" % (fl["model"], fl["history"], fl["request"], fl["after_history"],
                                                                                  fl["fresh_state"], fl["rel_dev"]),
                     {"broken": "oracle consistency sweep (hypothesis `consistent` of C11_cache_refines_jet; observable by "
-                               "C11_byproduct_first_of_second_observable / C11_byproduct_eps2_of_mixed_observable), tolerance %g relative" % TOL_HIST,
+                               "C11_byproduct_first_of_second_observable / C11_byproduct_eps2_of_mixed_observable), tolerance %g relative" % fl.get("value_tol", TOL_HIST),
                      "failing": {"model": fl["model"], "state_TVN": fl["state_TVN"], "history": fl["history"], "rel_dev": fnum(fl["rel_dev"]),
                                  "detail": fl}}, found_input=bool(fl.get("reproduced_on_state")))
     for pn in (impl.get("panics") or []) + sweep.get("panics", []):
@@ -298,7 +303,7 @@ def run(ctx):
         "worst_relative_deviation_from_fresh_state": worst_hist,
         "oracle_consistency_worst_relative_spread": worst_cons,
         "oracle_consistency_samples": cons_samples,
-        "tolerances": {"history_vs_fresh_relative": TOL_HIST, "par_pure_vs_pure_relative": TOL_PAR,
+        "tolerances": {"history_vs_fresh_relative": "1e-9 + 2e-12 / (rho/rho_max) per state (%s)" % ", ".join("%s: %.3g" % (c["name"], c["value_tol"]) for c in impl["configs"][:6]), "par_pure_vs_pure_relative": TOL_PAR,
                        "model_vs_implementation": "exact (bit patterns, map contents, counters); responses read through public getters within 4 ulp"},
         "support_search": {"level": "exploration (not counted among obligations)",
                            "thread_stress_runs": stress_runs, "thread_stress_responses": stress_resp,
@@ -313,7 +318,7 @@ def run(ctx):
     V.write_evidence(ctx, "proof", cov, [
         "the closures handed to the cache compute tuples that are projections of one jet (consistency hypothesis of the theorems): holds in "
         "floating point only up to round-off; measured every run (oracle_consistency_*, worst_relative_deviation_from_fresh_state) and bounded by "
-        "%g relative" % TOL_HIST,
+        "1e-9 + 2e-12/(rho/rho_max) relative",
         "lookup + compute + insert is atomic (one MutexGuard held across get_or_compute_derivative_residual): runtime fact, supported by the thread stress run",
         "rayon's indexed collect preserves chunk order: runtime fact, supported by par_pure vs pure over (threads, chunksize, npoints)",
         "par_pure = pure needs a guess-independent point solver (property C12); the two variants also build their temperature grids with "
@@ -337,8 +342,9 @@ def replay(rp):
     for s in det["steps"]:
         print(json.dumps(s))
     w = fnum(det["worst_rel_dev_from_fresh_state"])
-    print("worst relative deviation from the fresh-state value: %g (tolerance %g)" % (w, TOL_HIST))
-    if w > TOL_HIST:
+    tol = det.get("value_tol", TOL_HIST)
+    print("worst relative deviation from the fresh-state value: %g (tolerance %g)" % (w, tol))
+    if w > tol:
         print("REPRODUCED property=C11 history=[%s]" % f["history"])
         return 1
     print("not reproduced")
